@@ -454,6 +454,28 @@ func C19(run *hx.Run) {
 		c19Damaged(run, cp, "truncated", nrows)
 		ncorr++
 	}
+	// the same for a WITHOUT ROWID table (its scan is another code path, from the b-tree up to the driver)
+	{
+		wp := filepath.Join(dir, "drv-wr.sqlite")
+		if err := o.Exec(wp, "PRAGMA page_size=1024", "CREATE TABLE w(k TEXT PRIMARY KEY, v, pad) WITHOUT ROWID",
+			"WITH RECURSIVE c(i) AS (SELECT 1 UNION ALL SELECT i+1 FROM c WHERE i < 400) INSERT INTO w SELECT 'key' || i, i, substr('xxxxxxxxxxxxxxxxxxxxxxxxxxxxxxxxxxxxxxxxxxxxxxxxxxxxxxxxxxxxxxxx', 1, i % 60) FROM c"); err == nil {
+			wdata, _ := os.ReadFile(wp)
+			for cut := 2; cut < len(wdata)/1024; cut += 2 {
+				cp := filepath.Join(dir, fmt.Sprintf("wr-trunc%d.sqlite", cut))
+				os.WriteFile(cp, wdata[:cut*1024], 0o644)
+				c19DamagedTable(run, cp, "truncated-without-rowid", "w", "k")
+				ncorr++
+			}
+			for pg := 3; pg < len(wdata)/1024; pg += 4 {
+				img := append([]byte{}, wdata...)
+				img[(pg-1)*1024] = 0x33
+				cp := filepath.Join(dir, fmt.Sprintf("wr-corr%d.sqlite", pg))
+				os.WriteFile(cp, img, 0o644)
+				c19DamagedTable(run, cp, "page-type-without-rowid", "w", "k")
+				ncorr++
+			}
+		}
+	}
 	run.Count("damaged_files", ncorr)
 
 	// prepared statements live longer than one query: they must follow schema changes, and a failed
@@ -612,6 +634,50 @@ func C19(run *hx.Run) {
 					}
 				}
 				rsq.Close()
+			}
+		}
+	}
+
+	// (b5) descriptors: when every result set is closed and every failing query has returned, the pool holds no
+	// descriptor of the database file (a handle left to the garbage collector keeps the file open - and the
+	// finalizer's close() later drops the POSIX locks of whoever reads the file then)
+	{
+		fdsOn := func(p string) int {
+			n := 0
+			ents, _ := os.ReadDir("/proc/self/fd")
+			for _, e := range ents {
+				if t, err := os.Readlink("/proc/self/fd/" + e.Name()); err == nil && t == p {
+					n++
+				}
+			}
+			return n
+		}
+		fp := filepath.Join(dir, "fds.sqlite")
+		if err := o.Exec(fp, "CREATE TABLE f(a, b)", "INSERT INTO f VALUES(1,'x'),(2,'y'),(3,'z')"); err == nil {
+			if real, err := filepath.EvalSymlinks(fp); err == nil {
+				if fsq, err := gosql.Open("sqlittle", fp); err == nil {
+					before := fdsOn(real)
+					for i := 0; i < 20; i++ {
+						sqlRows(fsq, context.Background(), "SELECT * FROM f")
+						sqlRows(fsq, context.Background(), "SELECT nosuch FROM f")
+						sqlRows(fsq, context.Background(), "SELECT * FROM nosuch")
+						var a int
+						fsq.QueryRow("SELECT a FROM f").Scan(&a)
+						if rs, err := fsq.Query("SELECT a FROM f"); err == nil {
+							rs.Next()
+							rs.Close() // closed half way
+						}
+					}
+					after := fdsOn(real)
+					run.Eval(100)
+					run.Distinct("descriptors-after-queries")
+					if after > before {
+						run.Violation("C19/leak/descriptor", fmt.Sprintf("100 finished queries on one *sql.DB (complete, failing, closed half way, QueryRow): %d descriptors of the database file open before, %d after - every result set is closed", before, after), nil)
+					} else {
+						run.See("cleanup_observed", fmt.Sprintf("descriptors of the file after 100 finished queries: %d (before: %d)", after, before))
+					}
+					fsq.Close()
+				}
 			}
 		}
 	}
@@ -804,6 +870,10 @@ func C19(run *hx.Run) {
 // c19Damaged: a damaged file through database/sql: an error must surface, or
 // all rows SQLite... the native API delivers (if the damage is not on the path).
 func c19Damaged(run *hx.Run, path, kind string, nrows int) {
+	c19DamagedTable(run, path, kind, "t", "id")
+}
+
+func c19DamagedTable(run *hx.Run, path, kind, table, col string) {
 	sq, err := gosql.Open("sqlittle", path)
 	if err != nil {
 		return
@@ -812,7 +882,7 @@ func c19Damaged(run *hx.Run, path, kind string, nrows int) {
 	var rows []hx.Row
 	finished := make(chan struct{})
 	go func() {
-		rows, _, err = sqlRows(sq, context.Background(), "SELECT * FROM t")
+		rows, _, err = sqlRows(sq, context.Background(), "SELECT * FROM "+table)
 		close(finished)
 	}()
 	select {
@@ -830,7 +900,7 @@ func c19Damaged(run *hx.Run, path, kind string, nrows int) {
 	if db, oerr := sqlittle.Open(path); oerr != nil {
 		nativeErr = oerr
 	} else {
-		nativeErr = db.Select("t", func(sqlittle.Row) { nativeN++ }, "id")
+		nativeErr = db.Select(table, func(sqlittle.Row) { nativeN++ }, col)
 		db.Close()
 	}
 	switch {
